@@ -2,6 +2,7 @@
 package c05
 
 import (
+	"time"
 	"context"
 	"fmt"
 	"reflect"
@@ -270,7 +271,30 @@ func observe(q *cypher.RegularQuery, params map[string]any, mapper pgsql.KindMap
 }
 
 // xlateTranslate is xlate.TranslateWith with the graph id of the case.
-func xlateTranslate(q *cypher.RegularQuery, params map[string]any, mapper pgsql.KindMapper, graphID int32) (res xlate.Result, err error) {
+// translateLimit: "within bounded time" - a translation of these small queries takes milliseconds; a call that has not
+// returned after translateLimit is given up for lost and reported (its goroutine keeps running; the first such
+// verdict ends the sub-check).
+const translateLimit = 60 * time.Second
+
+func xlateTranslate(q *cypher.RegularQuery, params map[string]any, mapper pgsql.KindMapper, graphID int32) (xlate.Result, error) {
+	type result struct {
+		res xlate.Result
+		err error
+	}
+	done := make(chan result, 1)
+	go func() {
+		res, err := xlateTranslateInline(q, params, mapper, graphID)
+		done <- result{res, err}
+	}()
+	select {
+	case r := <-done:
+		return r.res, r.err
+	case <-time.After(translateLimit):
+		return xlate.Result{}, &xlate.Panic{Value: fmt.Sprintf("translate.Translate did not return within %s", translateLimit)}
+	}
+}
+
+func xlateTranslateInline(q *cypher.RegularQuery, params map[string]any, mapper pgsql.KindMapper, graphID int32) (res xlate.Result, err error) {
 	defer func() {
 		if p := recover(); p != nil {
 			err = &xlate.Panic{Value: p, Stack: string(debug.Stack())}
@@ -652,6 +676,10 @@ func TestC05Mutated(t *testing.T) {
 
 func TestC05Typed(t *testing.T) {
 	evid.Prop(t, "cy", evid.R.N(1200, 4000), genCy, oracle)
+}
+
+func TestC05Scope(t *testing.T) {
+	evid.Prop(t, "scope", evid.R.N(1500, 6000), genScope, oracle)
 }
 
 func TestC05Builder(t *testing.T) {
